@@ -185,3 +185,23 @@ func vLiftLex(buf string, assertID string) {
 	}
 	vNote("lift", "unrealizable")
 }
+
+// lift with the solver's arbitrary bytes after the lexeme replaced by benign continuations:
+// the deviation of one scanner step usually does not depend on them
+func vLiftLexParts(pre, lexeme, post string, assertID string) {
+	vLiftLex(pre+lexeme+post, assertID)
+	if vRT.notes["lift"] == "ok" {
+		return
+	}
+	for _, tail := range []string{"", " ", "(", ")", "(MIT)", " MIT", "+", " AND MIT", ")AND(MIT)"} {
+		for _, head := range []string{pre, "", "MIT ", "(MIT)", "(MIT "} {
+			if tail == post && head == pre {
+				continue
+			}
+			vLiftLex(head+lexeme+tail, assertID)
+			if vRT.notes["lift"] == "ok" {
+				return
+			}
+		}
+	}
+}
